@@ -386,6 +386,27 @@ def corr_arrays(ctx, n):
     ctx.cases += 1
 
 
+def rerun_oracle(ctx, room):
+    """The same engine object run again (for another source, then for the first one): every order
+    and the receiver response must be those of a fresh engine — the recursion holds on every run."""
+    sp = common.import_repo()
+    fresh, src, rec = build(room)
+    used, _, _ = build(room)
+    other = sp.geometry.SoundSource(transform(scenes.gen_point_inside(ctx.rng, room['sides'], margin=0.25), room), [0, 1, 0], [0, 0, 1])
+    used.run(other)
+    used.run(src)
+    ctx.oracle_evals += 3
+    for w in range(len(fresh.patch_list)):
+        if not np.array_equal(fresh.patch_list[w].E_matrix, used.patch_list[w].E_matrix):
+            k_bad = [k for k in range(fresh.patch_list[w].E_matrix.shape[1])
+                     if not np.array_equal(fresh.patch_list[w].E_matrix[:, k], used.patch_list[w].E_matrix[:, k])]
+            ctx.violation('kang-rerun', 'running the same RadiosityKang object again (other source, then this one) gives other order-%s energies on wall %d than a fresh object' % (k_bad, w),
+                          _inp(room), None, 'bit-identical')
+            return
+    if not np.array_equal(fresh.energy_at_receiver(rec, ignore_direct=True), used.energy_at_receiver(rec, ignore_direct=True)):
+        ctx.violation('kang-rerun', 'receiver response of a re-run engine differs from a fresh one', _inp(room), None, 'bit-identical')
+
+
 def run(ctx):
     n = 4 if ctx.tier == 'quick' else 40
     for k in range(n):
@@ -395,6 +416,8 @@ def run(ctx):
         corr_e2e(ctx, room, rad, rec, src)
         if recursion_oracle(ctx, room, rad):
             invariance_oracle(ctx, room, rad, rec)
+        if k == 0 or ctx.tier != 'quick':
+            rerun_oracle(ctx, room)
     corr_refusal(ctx, 12 if ctx.tier == 'quick' else 150)
     corr_arrays(ctx, 60 if ctx.tier == 'quick' else 1500)
 
@@ -406,6 +429,7 @@ def oracle(ctx, budget_s=60):
         rad, src, rec = build(room)
         if recursion_oracle(ctx, room, rad):
             invariance_oracle(ctx, room, rad, rec)
+        rerun_oracle(ctx, room)
 
 
 def replay(ctx, rp):
